@@ -120,7 +120,7 @@ def decide(ctx, fn, pname, mode_val, first, scope_kind, rest=None, recursive=(),
                 return [(("Some", first if m == "first" else ("T", (first, ai.FREE))), st)]
             if m == "get" and len(e["args"]) == 1 and e["args"][0].get("k") == "lit" and str(e["args"][0].get("v")) == "0":
                 return [(("Some", first), st)]
-            if m in ("len", "is_empty") and not e["args"]:
+            if m in ("len", "is_empty", "as_slice", "as_mut_slice") and not e["args"]:
                 return [(ai.FREE, st)]
         if k == "for":
             return st.event(("rest-loop",))
@@ -307,9 +307,11 @@ def prefix_rule(ctx, wf):
             if outs is None:
                 und.append((mode, label))
                 continue
-            went = [o for o in outs if ("rest-loop",) in o.events]
-            sliced = [o for o in went if any(ev[0] == "write" and ".slice(1)" in ev[1] for ev in o.events)]
             should = mode == "model" and label == "ScopeIndex:Var/data"
+            # where the prefix has to go, every way of writing the path counts - a short cut that returns before the remaining
+            # slices are looked at included; elsewhere the outcomes that reach the remaining slices
+            went = [o for o in outs if ("rest-loop",) in o.events or (should and any(ev[0] == "write" for ev in o.events))]
+            sliced = [o for o in went if any(ev[0] == "write" and ".slice(1)" in ev[1] for ev in o.events)]
             if should and went and len(sliced) == len(went):
                 good.append((mode, label))
             elif should:
